@@ -30,9 +30,11 @@ def run(ev, vd):
     ev.add_tlc("MCForEachAbs", r)
     if not r.ok:
         raise ToolError("ForEachAbs sanity model violates %s\n%s" % (r.violation, brief(r.out)))
-    # implementation-shaped models of the two worklist families most executions run on (with mutants): chunked per-socket
+    # implementation-shaped models (with mutants): the speculative executor loop (try-lock, abort the requester, discard its pushes,
+    # retry from the abort queue, commit), and the two worklist families most executions run on: chunked per-socket
     # worklists (publish / steal / fall back to the unpublished chunk) and OBIM (lazily shared priority bags, back-scan prevention)
-    for mod, cfgs, mutant in (("MCChunkWL", ["MCChunkWL.cfg"], "MCChunkWL_mutant.cfg"),
+    for mod, cfgs, mutant in (("MCForEachExec", ["MCForEachExec.cfg"], "MCForEachExec_mutant.cfg"),
+                              ("MCChunkWL", ["MCChunkWL.cfg"], "MCChunkWL_mutant.cfg"),
                               ("Obim", ["Obim.cfg"] + (["Obim_thorough.cfg"] if tier() == "thorough" else []), "Obim_mutant.cfg")):
         for cfg in cfgs:
             r = tlc(os.path.join(fe.SP, mod + ".tla"), cfg=os.path.join(fe.SP, cfg), workers=NCPU, timeout=3000, heap="16g")
